@@ -49,7 +49,7 @@ def norm(o):
 
 def single_call_base(seq, j):
     """a one-call script every entry point can run: decorator-compatible, no breaker, no budget"""
-    s = {"t0": seq["t0"], "budget": None, "breaker": None, "policies": [copy.deepcopy(seq["policies"][seq["calls"][j]["policy"]])],
+    s = {"t0": seq["t0"], "budget": seq.get("budget"), "breaker": None, "policies": [copy.deepcopy(seq["policies"][seq["calls"][j]["policy"]])],
          "calls": [copy.deepcopy(seq["calls"][j])]}
     c = s["calls"][0]
     c["policy"] = 0
@@ -70,7 +70,7 @@ def pairwise(chk, suspects):
         for j in range(len(seq["calls"])):
             base.append(single_call_base(seq, j))
     for _ in range(n):
-        s = rc.gen_sequence(chk.rng, {"entries": ["decorator"], "p_single": 1.0, "p_budget": 0.0, "mode": "call"})
+        s = rc.gen_sequence(chk.rng, {"entries": ["decorator"], "p_single": 1.0, "p_budget": 0.5, "mode": "call"})
         base.append(single_call_base(s, 0))
     for s in base:
         for (e, m, a) in ALL20:
